@@ -59,6 +59,8 @@ def shards(tier):
         out.append({'n': 3, 'first': i})
     for i in range(BOUNDS[tier]['two_line_variants']):
         out.append({'n': 2, 'lines': 2, 'first': i})
+    for i in range(len(TWO_LINE)):
+        out.append({'faults': i})
     return out
 
 
@@ -83,6 +85,11 @@ def run_shard(shard, ctx, tier):
     from mc.core import guarded_check
     import sys
     mod = sys.modules[__name__]
+    if 'faults' in shard:
+        V = two_line_variants('quick')[:len(TWO_LINE)]
+        for b in V:
+            guarded_check(mod, {'faults': [[list(V[shard['faults']])], [list(b)]]}, ctx)
+        return
     if shard.get('lines') == 2:
         V = two_line_variants(tier)
         a = V[shard['first']]
@@ -246,7 +253,46 @@ def snapshot(lay):
             for l in lay.lines_iterator()]
 
 
+def check_faults(case, ctx):
+    """environment answers (mc/faults.py): every single failing array allocation made by the merge script itself while two engines are merged.  The merge
+    may report the failure; if it returns, the merged line is the one a fault-free merge produces"""
+    import merge_ocr_results as mor
+    from mc import faults
+    engines = [[tuple(v) for v in e] for e in case['faults']]
+    ctx.state(('faults', tuple(map(tuple, engines))))
+
+    def fields(lay):
+        return [(l.transcription, list(l.characters) if l.characters is not None else None, None if l.logits is None else l.logits.toarray().tolist(),
+                 None if l.transcription_confidence is None else round(float(l.transcription_confidence), 9)) for l in lay.lines_iterator()]
+
+    def call():
+        lays = [build_layout(e) for e in engines]
+        mor.merge_layouts(lays)
+        return fields(lays[0])
+    inj = faults.Injector(faults.numpy_allocators(), faults.memory_error)
+    ref = None
+    for kk, site, (what, val) in inj.explore(call):
+        ctx.executed()
+        if kk is None:
+            if what != 'ok':
+                raise val
+            ref = val
+            continue
+        ctx.tag('fault-points')
+        if what == 'raised':
+            ctx.tag('failure-reported')
+            continue
+        ctx.nontrivial(('fault', tuple(map(tuple, engines)), kk), 'merge-returned-despite-a-failed-allocation')
+        if val != ref:
+            ctx.violation('keeps-most-confident-engine', f'{ID}/merge-returned-after-a-failed-allocation-differs',
+                          f'engines {engines}: with the allocation #{kk} ({site[2]} in {site[0]}:{site[1]}) raising MemoryError merge_layouts returned and the merged '
+                          f'line is {[(v[0], v[1], v[3]) for v in val]}; the fault-free merge gives {[(v[0], v[1], v[3]) for v in ref]}')
+            return
+
+
 def check_case(case, ctx):
+    if 'faults' in case:
+        return check_faults(case, ctx)
     import merge_ocr_results as mor
     from pero_ocr.core.confidence_estimation import get_line_confidence
     engines = [[tuple(v) for v in e] for e in case['engines']]
@@ -441,5 +487,5 @@ def describe(tier):
                                                'variants': len(VARIANTS)},
         'assumptions': ['the per-character confidence is the documented one (reference implementation in the check)',
                         'engines whose line has no characters (None / empty transcription) have no confidence'],
-        'min_nontrivial': 100, 'required_tags': ['command-line-merge', 'explicitly-stored-zero-logits', 'later-engine-wins', 'exact-tie-at-the-top', 'incremental-merges'],
+        'min_nontrivial': 100, 'required_tags': ['fault-points', 'failure-reported', 'command-line-merge', 'explicitly-stored-zero-logits', 'later-engine-wins', 'exact-tie-at-the-top', 'incremental-merges'],
     }
